@@ -1,6 +1,322 @@
-(* Props/C14.v — Prefixed numbers are exact, totally ordered and hash-consistent. (being filled in) *)
-Require Import Hdl21.Base.PyInt Hdl21.Base.Dec Hdl21.Model.Prefixed.
+(* Props/C14.v — Prefixed numbers are exact, totally ordered and hash-consistent.
+   Only statements, each closed by a lemma of Proofs/C14Proofs.v / Proofs/C14SpecProofs.v / Base/Dec.v,
+   followed by Print Assumptions, then non-vacuity Examples and the `_refuted` theorems about the PINNED behaviour.
 
+   Vocabulary (Model/Prefixed.v, the model of the REPAIRED hdl21/prefix.py):
+     a prefixed number p = (number p : finite Decimal, prefix p : exponent of a member of Prefix);
+     its exact value is  number p * 10^(prefix p);  `pexp p` is the exponent of that value and
+     `vat e p` the value as an INTEGER multiple of 10^e, meaningful for every e <= pexp p.
+   "op is exact" therefore reads: at every exponent e common to operands and result,
+     vat e (op a b) = vat e a  op  vat e b      (an identity in Z; it determines the value as a rational).
+   Every result's exponent is below the operands' (`pexp r <= pexp a`), so `e <= pexp r` makes e common to all. *)
+Require Import Hdl21.Base.PyInt Hdl21.Base.Dec Hdl21.Model.Prefixed Hdl21Gen.PrefixTable.
+Require Import Hdl21.Proofs.C14Proofs Hdl21.Corr.C14 Hdl21.Proofs.C14SpecProofs.
+Open Scope Z_scope.
+
+(* 0. the decimal layer: the sum of two Decimals in the exact context *)
 Theorem C14_dadd_exact e a b : e <= dexp a -> e <= dexp b -> at_ e (dadd a b) = at_ e a + at_ e b.
 Proof. exact (dadd_exact e a b). Qed.
 Print Assumptions C14_dadd_exact.
+
+(* ================================================================== 1. arithmetic is exact, never raises, and
+   returns a member of Prefix — for ALL finite numbers and ALL prefixes (membership is not even needed) *)
+Theorem C14_add_exact a b :
+  (exists r, padd a b = Ok r) /\
+  forall r e, padd a b = Ok r -> e <= pexp r ->
+    vat e r = vat e a + vat e b /\ pexp r <= pexp a /\ pexp r <= pexp b /\ pwf r = true.
+Proof.
+  split; [destruct (pscale_auto_spec (padd_raw a b)) as [q [_ E]]; eexists; exact E|].
+  intros r e H He. destruct (padd_exact e a b r H He) as [V [La Lb]]. repeat split; try assumption.
+  exact (pscale_auto_wf _ _ H).
+Qed.
+Print Assumptions C14_add_exact.
+
+Theorem C14_sub_exact a b :
+  (exists r, psub a b = Ok r) /\
+  forall r e, psub a b = Ok r -> e <= pexp r ->
+    vat e r = vat e a - vat e b /\ pexp r <= pexp a /\ pexp r <= pexp b /\ pwf r = true.
+Proof.
+  split; [destruct (pscale_auto_spec (psub_raw a b)) as [q [_ E]]; eexists; exact E|].
+  intros r e H He. destruct (psub_exact e a b r H He) as [V [La Lb]]. repeat split; try assumption.
+  exact (pscale_auto_wf _ _ H).
+Qed.
+Print Assumptions C14_sub_exact.
+
+(* product: at the sum of any two exponents of the operands *)
+Theorem C14_mul_exact a b :
+  (exists r, pmul a b = Ok r) /\
+  forall r ea eb, pmul a b = Ok r -> ea <= pexp a -> eb <= pexp b -> ea + eb <= pexp r ->
+    vat (ea + eb) r = vat ea a * vat eb b /\ pexp r <= pexp a + pexp b /\ pwf r = true.
+Proof.
+  split; [destruct (pmul_total a b) as [r [E _]]; eauto|].
+  intros r ea eb H Ha Hb He. split; [exact (pmul_exact ea eb a b r H Ha Hb He)|exact (pexp_pmul a b r H)].
+Qed.
+Print Assumptions C14_mul_exact.
+
+(* Prefixed * scalar (a Decimal d) *)
+Theorem C14_mul_scalar_exact a d r ea eb :
+  pmul_scalar a d = Ok r -> ea <= pexp a -> eb <= dexp d -> ea + eb <= pexp r -> vat (ea + eb) r = vat ea a * at_ eb d.
+Proof. exact (pmul_scalar_exact ea eb a d r). Qed.
+Print Assumptions C14_mul_scalar_exact.
+
+(* Prefixed + scalar, scalar - Prefixed (a Decimal d; the code converts it with to_prefixed and does not rescale) *)
+Theorem C14_add_scalar_exact a d e :
+  to_prefixed d = Ok (mkP d 0) /\
+  (e <= pexp (padd_raw a (mkP d 0)) -> vat e (padd_raw a (mkP d 0)) = vat e a + at_ e d) /\
+  (e <= pexp (psub_raw (mkP d 0) a) -> vat e (psub_raw (mkP d 0) a) = at_ e d - vat e a).
+Proof.
+  split; [exact (to_prefixed_spec d)|]. rewrite <- (vat_unit e d).
+  split; [exact (padd_raw_vat e a (mkP d 0))|exact (psub_raw_vat e (mkP d 0) a)].
+Qed.
+Print Assumptions C14_add_scalar_exact.
+
+(* Prefixed * Prefix (Prefix.__rmul__):  value * 10^q *)
+Theorem C14_prefix_mul_exact p q :
+  (exists r, prefix_rmul p q = Ok r) /\
+  forall r e, prefix_rmul p q = Ok r -> e <= pexp r -> vat e r = vat (e - q) p /\ pexp r <= pexp p + q /\ pwf r = true.
+Proof. split; [exact (prefix_rmul_total p q)|intros r e; exact (prefix_rmul_vat e p q r)]. Qed.
+Print Assumptions C14_prefix_mul_exact.
+
+Theorem C14_neg_exact e a : vat e (pneg a) = - vat e a /\ prefix (pneg a) = prefix a /\ pexp (pneg a) = pexp a.
+Proof. split; [exact (pneg_exact e a)|split; reflexivity]. Qed.
+Print Assumptions C14_neg_exact.
+
+Theorem C14_abs_exact e a : e <= pexp a ->
+  vat e (pabs a) = Z.abs (vat e a) /\ prefix (pabs a) = prefix a /\ pexp (pabs a) = pexp a.
+Proof. intros H. split; [exact (pabs_exact e a H)|split; reflexivity]. Qed.
+Print Assumptions C14_abs_exact.
+
+(* scale(prefix): the value is preserved, the prefix is the target *)
+Theorem C14_scale_exact p q e : e <= pexp (pscale p q) ->
+  vat e (pscale p q) = vat e p /\ prefix (pscale p q) = q /\ pexp (pscale p q) <= pexp p.
+Proof. intros H. split; [exact (pscale_vat e p q H)|split; [reflexivity|exact (pexp_pscale_le p q)]]. Qed.
+Print Assumptions C14_scale_exact.
+
+(* scale(): never raises, preserves the value, lands on a member of Prefix *)
+Theorem C14_scale_auto_exact p :
+  (exists r, pscale_auto p = Ok r) /\
+  forall r e, pscale_auto p = Ok r -> e <= pexp r -> vat e r = vat e p /\ pwf r = true /\ pexp r <= pexp p.
+Proof.
+  split; [destruct (pscale_auto_spec p) as [q [_ E]]; eauto|].
+  intros r e H He. split; [exact (pscale_auto_vat e p r H He)|split; [exact (pscale_auto_wf p r H)|exact (pscale_auto_pexp p r H)]].
+Qed.
+Print Assumptions C14_scale_auto_exact.
+
+(* conversion: to_prefixed(d) is d with the UNIT prefix, digit for digit *)
+Theorem C14_to_prefixed_exact d :
+  exists r, to_prefixed d = Ok r /\ number r = d /\ prefix r = 0 /\ pwf r = true /\ forall e, vat e r = at_ e d.
+Proof.
+  exists (mkP d 0). split; [exact (to_prefixed_spec d)|]. split; [reflexivity|]. split; [reflexivity|].
+  split; [exact unit_is_prefix|intros e; exact (vat_unit e d)].
+Qed.
+Print Assumptions C14_to_prefixed_exact.
+
+(* the same statements in the words of the correspondence run: the model's results pass the predicate `exact`
+   that Corr/C14.v evaluates on the implementation's results *)
+Theorem C14_model_meets_checked_spec a b :
+  (forall r, padd a b = Ok r -> exact (IVal (number r) (prefix r)) (dadd (pval a) (pval b)) = true) /\
+  (forall r, psub a b = Ok r -> exact (IVal (number r) (prefix r)) (dsub (pval a) (pval b)) = true) /\
+  (forall r, pmul a b = Ok r -> exact (IVal (number r) (prefix r)) (dmul (pval a) (pval b)) = true) /\
+  cmp_spec (pval a) (pval b) (Z.min (prefix a) (prefix b))
+    (CVal (pcmp OLt a b) (pcmp OLe a b) (pcmp OEq a b) (pcmp ONe a b) (pcmp OGt a b) (pcmp OGe a b)) = true /\
+  (forall t, pint a = Ok t -> is_int_partb t (pval a) = true).
+Proof.
+  split; [exact (model_add_exact a b)|]. split; [exact (model_sub_exact a b)|]. split; [exact (model_mul_exact a b)|].
+  split; [exact (model_cmp_spec a b)|exact (model_int_spec a)].
+Qed.
+Print Assumptions C14_model_meets_checked_spec.
+
+(* ================================================================== 2. comparing never raises *)
+(* `pcmp_ctx prec` is the code path with its error: round(number, EPSILON) raises InvalidOperation when the context
+   precision `prec` is exceeded.  In the exact context of the repaired code (prec = None) it never raises, for ANY two
+   finite numbers, and returns what the total function `pcmp` returns. *)
+Theorem C14_cmp_total o a b : pcmp_ctx None o a b = inl (pcmp o a b).
+Proof. exact (pcmp_ctx_exact o a b). Qed.
+Print Assumptions C14_cmp_total.
+
+(* ================================================================== 3. comparison is sound beyond the tolerance *)
+(* what is compared: the exact values rounded half-even to the grid 10^(s - EPSILON), s = the smaller prefix *)
+Theorem C14_cmp_key a b e :
+  let s := Z.min (prefix a) (prefix b) in
+  e <= pexp a -> e <= pexp b -> e <= s - EPSILON ->
+  rkey a b = (rhe (vat e a) (10 ^ (s - EPSILON - e)), rhe (vat e b) (10 ^ (s - EPSILON - e))) /\
+  forall o, pcmp o a b = int_op o (fst (rkey a b)) (snd (rkey a b)).
+Proof.
+  intros s. unfold s. rewrite <- smaller_prefix_min. intros Ha Hb Hs.
+  split; [exact (rkey_spec a b e Ha Hb Hs)|intros o; exact (pcmp_key o a b)].
+Qed.
+Print Assumptions C14_cmp_key.
+
+(* |value a - value b| > 10^-EPSILON * 10^(min prefix)  ==>  every operator agrees with the exact values *)
+Theorem C14_cmp_sound a b e :
+  let s := Z.min (prefix a) (prefix b) in
+  e <= pexp a -> e <= pexp b -> e <= s - EPSILON ->
+  10 ^ (s - EPSILON - e) < Z.abs (vat e a - vat e b) ->
+  (pcmp OLt a b = true <-> vat e a < vat e b) /\ (pcmp OGt a b = true <-> vat e b < vat e a) /\
+  pcmp OEq a b = false /\ pcmp ONe a b = true /\
+  (pcmp OLe a b = true <-> vat e a < vat e b) /\ (pcmp OGe a b = true <-> vat e b < vat e a).
+Proof. intros s. unfold s. rewrite <- smaller_prefix_min. exact (pcmp_sound a b e). Qed.
+Print Assumptions C14_cmp_sound.
+
+(* the same value  ==>  equal (and <=, >=; not <, >, !=), whatever the prefixes and representations *)
+Theorem C14_cmp_same_value a b e : e <= pexp a -> e <= pexp b -> vat e a = vat e b ->
+  pcmp OEq a b = true /\ pcmp OLe a b = true /\ pcmp OGe a b = true /\
+  pcmp OLt a b = false /\ pcmp OGt a b = false /\ pcmp ONe a b = false.
+Proof. exact (pcmp_same_value a b e). Qed.
+Print Assumptions C14_cmp_same_value.
+
+(* inside the tolerance the operators may call two values equal, but never invert their order *)
+Theorem C14_cmp_never_inverts a b e : e <= pexp a -> e <= pexp b -> vat e a <= vat e b ->
+  pcmp OGt a b = false /\ pcmp OLe a b = true.
+Proof. exact (pcmp_never_inverts a b e). Qed.
+Print Assumptions C14_cmp_never_inverts.
+
+(* ================================================================== 4. trichotomy and the usual relations *)
+Theorem C14_trichotomy a b :
+  (pcmp OLt a b = true /\ pcmp OEq a b = false /\ pcmp OGt a b = false) \/
+  (pcmp OLt a b = false /\ pcmp OEq a b = true /\ pcmp OGt a b = false) \/
+  (pcmp OLt a b = false /\ pcmp OEq a b = false /\ pcmp OGt a b = true).
+Proof. exact (pcmp_trichotomy a b). Qed.
+Print Assumptions C14_trichotomy.
+
+Theorem C14_le_ge_ne a b :
+  pcmp OLe a b = pcmp OLt a b || pcmp OEq a b /\
+  pcmp OGe a b = pcmp OGt a b || pcmp OEq a b /\
+  pcmp ONe a b = negb (pcmp OEq a b) /\
+  pcmp OLe a b = negb (pcmp OGt a b) /\
+  pcmp OGe a b = negb (pcmp OLt a b).
+Proof. exact (pcmp_rel a b). Qed.
+Print Assumptions C14_le_ge_ne.
+
+(* a < b  iff  b > a, a <= b iff b >= a, a == b iff b == a, a != b iff b != a *)
+Theorem C14_lt_gt_swap o a b : pcmp (swap_op o) b a = pcmp o a b.
+Proof. exact (pcmp_swap o a b). Qed.
+Print Assumptions C14_lt_gt_swap.
+
+Theorem C14_eq_refl a : pcmp OEq a a = true.
+Proof. exact (pcmp_refl a). Qed.
+Print Assumptions C14_eq_refl.
+
+(* ================================================================== 5. hash *)
+(* hash never raises; numbers that denote the same value hash equally (and compare equal: C14_cmp_same_value) *)
+Theorem C14_hash_consistent a b e : e <= pexp a -> e <= pexp b -> vat e a = vat e b ->
+  phash a = phash b /\ exists c k, phash a = Ok (Some (c, k)).
+Proof. intros Ha Hb H. split; [exact (phash_consistent a b e Ha Hb H)|exact (phash_total a)]. Qed.
+Print Assumptions C14_hash_consistent.
+
+(* in the model the hash is a faithful key of the value (CPython's hash may collide; only -> is observable) *)
+Theorem C14_hash_iff_same_value a b e : e <= pexp a -> e <= pexp b -> (vat e a = vat e b <-> phash a = phash b).
+Proof. intros Ha Hb. split; [exact (phash_consistent a b e Ha Hb)|exact (phash_injective a b e Ha Hb)]. Qed.
+Print Assumptions C14_hash_iff_same_value.
+
+(* ================================================================== 6. int() and float() *)
+(* int(p) never raises and is THE integer part of the value (toward zero), on the value at any exponent e <= 0:
+   |t| * 10^-e <= |V| < (|t| + 1) * 10^-e  and  t, V have the same sign *)
+Theorem C14_int_trunc p e : e <= pexp p -> e <= 0 ->
+  exists t, pint p = Ok t /\ int_part_at t (vat e p) e /\ forall t', int_part_at t' (vat e p) e -> t' = t.
+Proof.
+  intros Hp He. destruct (pint_trunc p e Hp He) as [t [E I]]. exists t. split; [exact E|split; [exact I|]].
+  intros t' I'. exact (int_part_at_unique t' t _ e He I' I).
+Qed.
+Print Assumptions C14_int_trunc.
+
+(* float(p): `rnd` stands for CPython's float(Decimal) (correctly rounded; TRUSTED, validated per run against
+   fractions.Fraction).  The theorem: float never raises and applies rnd exactly ONCE, to a Decimal x that denotes the
+   exact value of p — no intermediate rounding (the pinned code rounded number, 10**prefix and their product). *)
+Section Float.
+  Variable F : Type.
+  Variable rnd : dec -> F.
+  Theorem C14_float_nearest_partial p :
+    exists x, pfloat rnd p = Ok (rnd x) /\ dexp x <= pexp p /\ forall e, e <= dexp x -> at_ e x = vat e p.
+  Proof. exact (pfloat_one_rounding rnd p). Qed.
+End Float.
+Print Assumptions C14_float_nearest_partial.
+
+(* ================================================================== non-vacuity: concrete instances (pinned witnesses) *)
+Definition PX (c e q : Z) : pfx := mkP (of_int c e) q.     (* c * 10^e with prefix exponent q *)
+
+(* 1*Y + 1*y = 1000000000000000000000000000000000000000000000001 * 10^-24, all 49 digits *)
+Example C14_ex_add : exists r, padd (PX 1 0 24) (PX 1 0 (-24)) = Ok r /\ pexp r = -24 /\ vat (-24) r = 10 ^ 48 + 1 /\ pwf r = true.
+Proof. eexists. split; [vm_compute; reflexivity|]. vm_compute. repeat split. Qed.
+
+(* 31 digits times 3 *)
+Example C14_ex_mul : exists r, pmul (PX 1234567890123456789012345678901 0 0) (PX 3 0 0) = Ok r /\ pexp r <= 0 /\
+  vat (pexp r) r = 3703703670370370367037037036703 * 10 ^ (- pexp r).
+Proof. eexists. split; [vm_compute; reflexivity|]. vm_compute. split; [discriminate|reflexivity]. Qed.
+
+(* 1*UNIT > 1*n: nine decades apart; the hypotheses of C14_cmp_sound hold at e = -29 *)
+Example C14_ex_cmp_far :
+  let a := PX 1 0 0 in let b := PX 1 0 (-9) in
+  (-29 <= pexp a /\ -29 <= pexp b /\ -29 <= Z.min (prefix a) (prefix b) - EPSILON /\
+   10 ^ (Z.min (prefix a) (prefix b) - EPSILON - -29) < Z.abs (vat (-29) a - vat (-29) b)) /\
+  pcmp OGt a b = true /\ pcmp OLt a b = false /\ pcmp OEq a b = false /\ pcmp_ctx None OGt a b = inl true.
+Proof. vm_compute. repeat split; discriminate. Qed.
+
+(* 1*K vs 1000.000000000000000004*UNIT: 4e-18 apart, tolerance 1e-20: ordered.  1 vs 1 + 4e-21: inside: equal *)
+Example C14_ex_cmp_tolerance :
+  pcmp OLt (PX 1 0 3) (PX 1000000000000000000004 (-18) 0) = true /\
+  pcmp OEq (PX 1 0 0) (PX 1000000000000000000004 (-21) 0) = true /\
+  vat (-21) (PX 1 0 0) <> vat (-21) (PX 1000000000000000000004 (-21) 0).
+Proof. vm_compute. repeat split; discriminate. Qed.
+
+(* 1000*m == 1*UNIT, same hash; 1.50*K and 1500*UNIT too *)
+Example C14_ex_hash :
+  vat (-3) (PX 1000 0 (-3)) = vat (-3) (PX 1 0 0) /\ pcmp OEq (PX 1000 0 (-3)) (PX 1 0 0) = true /\
+  phash (PX 1000 0 (-3)) = phash (PX 1 0 0) /\ phash (PX 1 0 0) = Ok (Some (1, 0)) /\
+  phash (PX 150 (-2) 3) = phash (PX 1500 0 0) /\ phash (PX 1 0 0) <> phash (PX 1 0 (-3)).
+Proof. vm_compute. repeat split; discriminate. Qed.
+
+(* int(1500*m) = 1, int(1.5*K) = 1500, int(-7*c) = 0, int(-1999*m) = -1 *)
+Example C14_ex_int :
+  pint (PX 1500 0 (-3)) = Ok 1 /\ pint (PX 15 (-1) 3) = Ok 1500 /\ pint (PX (-7) 0 (-2)) = Ok 0 /\ pint (PX (-1999) 0 (-3)) = Ok (-1) /\
+  int_part_at 1 (vat (-3) (PX 1500 0 (-3))) (-3).
+Proof. vm_compute. repeat split; discriminate. Qed.
+
+(* float(3*y) is ONE rounding of 3E-24 (nearest_double: the specification validated against CPython) *)
+Example C14_ex_float : pfloat nearest_double (PX 3 0 (-24)) = Ok (nearest_double (of_int 3 (-24))) /\
+  nearest_double (of_int 3 (-24)) = FFin 8166776806102523 (-131).
+Proof. vm_compute. split; reflexivity. Qed.
+
+(* scale: 5*n to PICO is 5000*p *)
+Example C14_ex_scale : vat (-12) (pscale (PX 5 0 (-9)) (-12)) = 5000 /\ prefix (pscale (PX 5 0 (-9)) (-12)) = -12 /\
+  pscale_auto (PX 5000 0 (-12)) = Ok (pscale (PX 5000 0 (-12)) (-9)).
+Proof. vm_compute. repeat split. Qed.
+
+(* ================================================================== the PINNED behaviour is refuted *)
+(* comparison in the default 28-digit context (pcmp_ctx (Some 28)): 1*UNIT > 1*n raises decimal.InvalidOperation *)
+Theorem C14_pinned_cmp_refuted :
+  exists a b, pwf a = true /\ pwf b = true /\ pcmp_ctx (Some 28) OGt a b = inr InvalidOperation.
+Proof. exists (PX 1 0 0), (PX 1 0 (-9)). vm_compute. repeat split. Qed.
+Print Assumptions C14_pinned_cmp_refuted.
+
+(* ... and so does EVERY comparison in which the first operand is at least 10^(28 - EPSILON) = 10^8 units of the smaller
+   prefix ("more than eight decades apart"), for every operator *)
+Theorem C14_pinned_cmp_raises_beyond_8_decades o a b e :
+  let s := Z.min (prefix a) (prefix b) in
+  e <= pexp a -> e <= pexp b -> e <= s - EPSILON ->
+  10 ^ 28 * 10 ^ (s - EPSILON - e) <= Z.abs (vat e a) ->
+  pcmp_ctx (Some 28) o a b = inr InvalidOperation.
+Proof. intros s. unfold s. rewrite <- smaller_prefix_min. apply pcmp_ctx_raises. lia. Qed.
+Print Assumptions C14_pinned_cmp_raises_beyond_8_decades.
+
+(* hash on the (number, prefix) fields: 1000*m == 1*UNIT denote one value, compare equal, and get different keys *)
+Theorem C14_pinned_hash_refuted :
+  exists a b, pwf a = true /\ pwf b = true /\ vat (-3) a = vat (-3) b /\ pcmp OEq a b = true /\
+              phash_pinned a <> phash_pinned b.
+Proof. exists (PX 1000 0 (-3)), (PX 1 0 0). vm_compute. repeat split; discriminate. Qed.
+Print Assumptions C14_pinned_hash_refuted.
+
+(* int(self.number) * 10**prefix: raises for every negative prefix (int(1500*m)), and truncates the NUMBER instead of
+   the value (int(1.5*K) = 1000) *)
+Theorem C14_pinned_int_refuted :
+  (exists p, pwf p = true /\ pint_pinned p = Error EOther /\ pint p = Ok 1) /\
+  (exists p, pwf p = true /\ pint_pinned p = Ok 1000 /\ pint p = Ok 1500).
+Proof. split; [exists (PX 1500 0 (-3))|exists (PX 15 (-1) 3)]; vm_compute; repeat split. Qed.
+Print Assumptions C14_pinned_int_refuted.
+
+(* sums rounded to the 28 digits of the default context: 1*Y + 1*y loses the 1*y *)
+Theorem C14_pinned_add_refuted :
+  exists a b, pwf a = true /\ pwf b = true /\
+    vat (-24) (padd_raw_pinned a b) <> vat (-24) a + vat (-24) b /\ vat (-24) (padd_raw a b) = vat (-24) a + vat (-24) b.
+Proof. exists (PX 1 0 24), (PX 1 0 (-24)). vm_compute. repeat split; discriminate. Qed.
+Print Assumptions C14_pinned_add_refuted.
